@@ -4,6 +4,7 @@ import re
 import common
 import facts
 import fieldflow as ff
+import hirq as H
 import mustpass as mp
 from e1_panicpath import dominators
 
@@ -14,8 +15,8 @@ EXPLANATION = (
     "offered parameter through indexing / pop only, never a constructor); (WHO) inside selection the builder's input set is only "
     "mutated through add_regular_utxo - nothing is removed or replaced; (ACCOUNT) every add is followed, in the same iteration, by "
     "input_total += that UTxO's amount and output_total += fee_for_input(that UTxO) - the running totals the coverage tests compare "
-    "are faithful to what was added (the one audited exception is the bootstrap input added when implicit inputs already cover the "
-    "outputs); (GATE) walking backwards from the success return of add_inputs_from, a coverage test (the insufficiency check of "
+    "are faithful to what was added (no exception: the first input added when implicit inputs already cover the outputs is accounted "
+    "like every other one); (GATE) walking backwards from the success return of add_inputs_from, a coverage test (the insufficiency check of "
     "largest-first, or the exit edge of the `input_total.coin < output_total.coin` top-up loop) is met before any add and before the "
     "function entry - no success after a last addition without a coverage test; largest-first itself returns Ok only on the covered "
     "edge of its final comparison; (IDX) the index-set typestate of random-improve: a value read from the chosen side "
@@ -244,6 +245,70 @@ def fresh_rule(rep, F, ids):
     rep.floor("coverage comparisons over the running totals", 4, n_cmp)
 
 
+def post_gate_rule(rep, F, ids, adds):
+    """success of add_inputs_from is decided on what the builder really holds"""
+    rep.rule("POST-gate", "the success return of add_inputs_from is dominated by the passing edge of `actual >= required` where actual is a fresh get_total_input() and required a fresh get_total_output() + min_fee(), all evaluated after the last input addition: the running totals of the strategies are bookkeeping (an offered list that repeats an outpoint, an outpoint the builder already holds, assets required by a burn are invisible to them), the final test is on the builder's state - unless the offered list is made unique by input before selection")
+    fid = ids["main"]
+    fn = F.fns[fid]
+    org = ff.Origins(F, fid)
+    rep.inst("POST-gate")
+    add_bbs = {c.bb for c in adds["main"]} | {c.bb for c in calls_to(F, fid, "cip2_random_improve_by")} | {c.bb for c in calls_to(F, fid, "cip2_largest_first_by")}
+    succ = {i_: [x_ for x_ in mp._succs(fn, i_) if x_ is not None and not fn["bbs"][x_]["c"]] for i_ in range(len(fn["bbs"])) if not fn["bbs"][i_]["c"]}
+
+    def reaches_add(b0):
+        seen, work = {b0}, [b0]
+        while work:
+            x = work.pop()
+            for y in succ.get(x, []):
+                if y in add_bbs:
+                    return True
+                if y not in seen:
+                    seen.add(y)
+                    work.append(y)
+        return False
+
+    gated = True
+    n_ok = 0
+    for bi, kind, loc in mp.success_stores(F, fid):
+        if kind != "ok":
+            continue
+        n_ok += 1
+        ok = False
+        for s, edge, d in mp.dominating_guards(F, fid, bi, org):
+            if d["kind"] != "call" or not re.search(r"PartialOrd(<[^>]*>)?>?::(ge|lt|le|gt)$", d["callee"]):
+                continue
+            name = d["callee"].rsplit("::", 1)[-1]
+            a0 = set(d["args"][0]) if d["args"] else set()
+            a1 = set(d["args"][1]) if len(d["args"]) > 1 else set()
+            if name in ("le", "gt"):
+                a0, a1 = a1, a0
+                name = {"le": "ge", "gt": "lt"}[name]
+            # actual (a0) >= required (a1), or !(actual < required)
+            tin = [x for x in a0 if x.startswith("call:") and "get_total_input" in x]
+            tout = [x for x in a1 if x.startswith("call:") and "get_total_output" in x]
+            fee = [x for x in a1 if x.startswith("call:") and x.split("@")[0].endswith("min_fee")]
+            if not (tin and tout and fee):
+                continue
+            passing = (name == "ge" and (edge != "0") != d["neg"]) or (name == "lt" and (edge == "0") != d["neg"])
+            fresh = all(not reaches_add(int(x.split("@")[1])) for x in tin + tout + fee)
+            if passing and fresh:
+                ok = True
+        if not ok:
+            gated = False
+    if n_ok == 0:
+        rep.lost("add_inputs_from has no success return")
+        return
+    if gated:
+        return
+    # no final test on the builder's state: then at least the offered list must be unique by input
+    uniq = False
+    for n_ in H.walk(F.hir[fid]["body"]) if fid in F.hir else []:
+        if n_[0] == "mcall" and n_[2] in ("insert", "contains", "contains_key", "entry") and n_[5] and re.search(r"(Set|Map)<(&'?\w* ?)?protocol_types::tx_input::TransactionInput", n_[6] or ""):
+            uniq = True
+    if not uniq:
+        rep.violation("POST-gate", "add_inputs_from|no-final-test", "add_inputs_from returns Ok on the strategies' running totals alone and the offered list is not made unique by input: offered [U, U] (the same 6 ADA outpoint twice) for a 10 ADA output returns Ok with one 6 ADA input; a burn of 5 X with pure-ADA strategies returns Ok with no X among the inputs", {})
+
+
 def check(rep, F, tier, replay=None):
     ids = {}
     for k, key in FNS.items():
@@ -292,7 +357,6 @@ def check(rep, F, tier, replay=None):
 
     # ---- ACCOUNT --------------------------------------------------------------------------------------------------------
     rep.rule("ACCOUNT", "every add_regular_utxo(x) is followed in the same iteration by a checked_add of x's amount (input total) and a checked_add of fee_for_input(x) (output total)")
-    audited_first = 0
     for k, fid in ids.items():
         fn = F.fns[fid]
         vadds = calls_to(F, fid, "Value::checked_add")
@@ -311,16 +375,10 @@ def check(rep, F, tier, replay=None):
                     else:
                         amount_ok = True
             rep.inst("ACCOUNT")
-            if amount_ok and not fee_ok and k == "main" and any("::pop" in x for x in sk):
-                audited_first += 1
-                rep.allow("ACCOUNT")
-                continue
             if not amount_ok:
                 rep.violation("ACCOUNT", "%s|amount|%s" % (FNS[k], "+".join(sorted(x.split("@")[0].rsplit("::", 1)[-1] for x in sk))), "%s: an added UTxO's amount is not added to the running input total in the same iteration: the coverage test compares a total that is not what the builder holds" % FNS[k], {})
             if not fee_ok:
                 rep.violation("ACCOUNT", "%s|fee|%s" % (FNS[k], "+".join(sorted(x.split("@")[0].rsplit("::", 1)[-1] for x in sk))), "%s: the fee of an added UTxO is not added to the running output total in the same iteration" % FNS[k], {})
-    if audited_first != 1:
-        rep.lost("expected exactly one audited bootstrap-input site (amount accounted, fee not), found %d" % audited_first)
 
     # ---- GATE -----------------------------------------------------------------------------------------------------------
     rep.rule("GATE", "backwards from the success return of add_inputs_from a coverage test is met before any add_regular_utxo and before the entry; largest-first returns Ok only on the covered edge of its final comparison")
@@ -627,4 +685,5 @@ def check(rep, F, tier, replay=None):
         if not ok:
             rep.violation("LF", "cip2_largest_first_by|stop", "cip2_largest_first_by adds an input on a path that does not pass the not-yet-covered edge of the coverage comparison (it no longer stops as soon as the target is covered)", {})
     fresh_rule(rep, F, ids)
+    post_gate_rule(rep, F, ids, adds)
     return rep.finish(EXPLANATION, ["Value::checked_add / BigNum comparisons are exact (C14)", "fee_for_input is the marginal fee of the input (C06 / C15)"], ["csl-facts driver (MIR: resolved callees, dominators, origins slice)"])
